@@ -1,6 +1,8 @@
 """C08 — binary class columns with mixed property sets.
 C08.state (per-class serializer state is updated order-insensitively), C08.own (per-instance value closure reads only its
 own instance; lookup order canonical -> aliases -> default; migration with fallback), C08.default, C08.col."""
+import re
+
 from sa import core, discipline as D, ioseq
 from . import common
 
@@ -452,6 +454,92 @@ def rule_sstr_default(c, prog, R="C08.state"):
         c.violation(R, "sstr|default-not-registered", "collect_type_info stores a column default that was never tested for being a SharedString (the registration looks at another value — e.g. only the database default, not the type fallback): instances that lack the property are filled with a SharedString that has no SSTR index, and serialize_properties fails although every instance serializes alone", fn.sp, instance=inst)
 
 
+def legacy_before_alias(d):
+    """(class, legacy spelling L, alias spelling A, new property N): L migrates to N, A is a non-migrating spelling of N,
+    and L sorts before A — an instance carrying both has its explicit value (under A) beaten by the migrated one when
+    the spellings are tried in name order"""
+    out = []
+    for ck in sorted(d.classes):
+        names = {}
+        for a in d.chain(ck):
+            for nm, p in d.classes[a].props.items():
+                names.setdefault(nm, (a, p))
+        legacy, alias = {}, {}
+        for nm, (a, p) in names.items():
+            C = p
+            if p.kind == "Alias":
+                C = d.classes[a].props.get(p.alias_for)
+                if C is None:
+                    continue
+            if C.kind != "Canonical":
+                continue
+            if C.ser == "Migrate":
+                legacy.setdefault(C.migrate_to, []).append(nm)
+            elif nm != C.name:
+                alias.setdefault(C.name, []).append(nm)
+        for N, Ls in legacy.items():
+            for L in Ls:
+                for A in alias.get(N, []):
+                    if L < A:
+                        out.append((ck, L, A, N))
+    return out
+
+
+def rule_pref(c, prog, R="C08.pref"):
+    """which spelling supplies an instance's value when it carries several"""
+    from sa import db as dbm
+    c.rule(R, "binary writer: when an instance lacks the canonical name, the spellings recorded for the column are tried so that a spelling of the property itself comes before a legacy spelling whose value has to be migrated (an explicit value beats a migrated one whatever the two are called); decided from the element type and fill site of PropInfo's spelling set and, when that set is ordered by name alone, from the pairs of the bundled database in which the legacy name sorts first")
+    adt = prog.adts.get("rbx_binary::serializer::state::PropInfo")
+    if adt is None:
+        raise core.AnchorMissing("rbx_binary::serializer::state::PropInfo")
+    sets = [f for f in adt["variants"][0]["fields"] if re.search(r"(BTreeSet|HashSet|Vec|BTreeMap|IndexSet)<", f["ty"]) and re.search(r"Ustr|String|str", f["ty"])]
+    if not sets:
+        raise core.AnchorMissing("PropInfo: no collection of spellings")
+    plain = [f for f in sets if re.fullmatch(r"[\w:]+<(ustr::Ustr|alloc::string::String|&'?\w* ?str)>", f["ty"])]
+    inst = "serialize_properties:explicit-spelling-before-legacy"
+    if len(sets) > 1 or not plain:
+        # spellings are kept apart (two collections) or carry a rank next to the name: the order is no longer the
+        # order of the names alone.  A boolean rank must be `this spelling migrates` (false sorts first).
+        cfn = common.find_fn(prog, r"serializer::state::SerializerState.*::collect_type_info$")
+        for n in core.walk_fn(cfn):
+            if n.get("k") == "MethodCall" and n["m"] == "insert" and n["args"] and core.place_root(n["recv"])[1][-1:] == [sets[0]["name"]]:
+                a = core.strip(n["args"][0])
+                if a.get("k") == "Tup" and a["args"] and (core.strip(a["args"][0]).get("ty") == "bool"):
+                    r = core.strip(a["args"][0])
+                    neg = False
+                    while r.get("k") == "Unary" and r.get("op") in ("!", "Not"):
+                        neg = not neg
+                        r = core.strip(r["e"])
+                    if r.get("k") == "MethodCall" and r["m"] in ("is_some", "is_none") and "PropertyMigration" in (core.strip(r["recv"]).get("ty") or ""):
+                        migrating_last = (r["m"] == "is_some") != neg
+                        if not migrating_last:
+                            c.violation(R, "binary-writer|rank-reversed", f"collect_type_info ranks the spellings in PropInfo.{sets[0]['name']} so that migrating (legacy) spellings sort before spellings of the property itself: a migrated value then always beats an explicit one stored under an alias", core.loc(n), instance=inst)
+                            return
+        c.ok(R, inst)
+        return
+    fld = plain[0]["name"]
+    fn = common.find_fn(prog, r"serializer::state::SerializerState.*::serialize_properties$")
+    filtered = False
+    for n in core.walk_fn(fn):
+        fl = core.as_for(n)
+        if fl is not None and fld in core.place_root(fl[1])[1]:
+            conds = [y for y in core.walk(fl[2]) if y.get("k") in ("If", "Match") and y.get("src") not in ("ForLoopDesugar", "TryDesugar")]
+            # `if let Some(v) = instance.properties.get(alias) { return v }` is the lookup itself; anything else ranks
+            if any(not any(z.get("k") == "MethodCall" and z["m"] == "get" for z in core.walk(y.get("c") or y.get("e") or {})) for y in conds):
+                filtered = True
+    if filtered:
+        c.ok(R, inst)
+        return
+    pairs = legacy_before_alias(dbm.Database())
+    distinct = sorted({(L, A, N) for _ck, L, A, N in pairs})
+    c.rules[R]["obligations"] += len(distinct)
+    if not distinct:
+        c.ok(R, inst)
+        return
+    ex = "; ".join(f"{L} (legacy) before {A} (spelling of {N}) on {len([1 for p in pairs if p[1:] == (L, A, N)])} classes" for L, A, N in distinct)
+    c.violation(R, "binary-writer|legacy-before-alias|" + ",".join(f"{L}<{A}" for L, A, N in distinct), f"serialize_properties takes the first hit in PropInfo.{fld}, a set ordered by name that holds legacy (migrating) spellings and spellings of the new property alike: {ex} — an instance carrying both gets the value migrated from the legacy property written and its explicit value dropped; with the explicit value under the canonical name, or the legacy one spelled to sort later, the explicit value wins", fn.sp, instance=inst)
+
+
 def run(c, prog):
     from . import C16 as _C16
     from sa import db as _dbm
@@ -462,6 +550,7 @@ def run(c, prog):
     rule_state(c, prog)
     rule_sstr_default(c, prog)
     rule_own(c, prog)
+    rule_pref(c, prog)
     rule_default(c, prog)
     rule_col(c, prog)
     rule_scratch(c, prog)
